@@ -327,13 +327,13 @@ def entry_of(sc: dict, w: dict | None) -> str:
 
 
 def _simulate(case: dict, faults, fault_cfg, tape: Tape, ftape: Tape | None = None, initial_override=None,
-              writers=None, tag="run"):
+              writers=None, tag="run", root=None):
     """Build the tree, run the actors, return everything the oracle needs."""
     sc = case["scenario"]
     if initial_override is not None:
         sc = dict(sc)
         sc["initial_data"] = initial_override
-    root = fsmodel.fresh_root(tag)
+    root = root or fsmodel.fresh_root(tag)
     spec, target_rel = layout(sc)
     fsmodel.build_tree(root, spec)
     target = os.path.join(root, target_rel)
@@ -705,13 +705,18 @@ def units(tier: str, verif_seed: int) -> list:
                     "pairs": False})
     for i in range(n_rand_units):
         out.append({"kind": "random", "start": i * per, "count": per, "vseed": verif_seed, "tier": tier})
+    n_x = 16 if tier == "quick" else 80
+    for i in range(n_x):
+        out.insert(i * 3, {"kind": "xval", "start": i * 4, "count": 4 if tier != "quick" else 1, "vseed": verif_seed})
     return out
 
 
 def run_unit(unit: dict):
     stats = Stats()
     viols: list = []
-    if unit["kind"] == "det":
+    if unit["kind"] == "xval":
+        crossvalidate_unit(unit, stats)
+    elif unit["kind"] == "det":
         _det_unit(unit, stats)
     elif unit["kind"] == "sweep":
         _sweep(unit, stats, viols)
@@ -949,6 +954,9 @@ def main(tier: str, seed: int, args) -> int:
         "runs_per_hour": int(runs / wall * 3600) if wall > 0 else 0,
         "yield_points_executed": c.get("yield_points", 0),
         "simulated_time": "no timers or deadlines exist in the write path; reach is measured in yield points (file operations scheduled), not seconds",
+        "traces_validated_against_impl": c.get("xval_agree", 0),
+        "kill_points_cross_validated_against_real_SIGKILL": {"children": c.get("xval_children", 0), "agree": c.get("xval_agree", 0),
+                                                              "by_op": dict(stats.groups.get("xval_ops", {}))},
         "sweep_scenarios": c.get("sweep_scenarios", 0),
         "sweep_single_fault_runs": c.get("sweep_single_runs", 0),
         "sweep_pair_runs": c.get("sweep_pair_runs", 0),
@@ -994,3 +1002,53 @@ def _det_unit(unit, stats):
         case = random_case(derive_seed(unit["vseed"], PROP, "random", j), j, "quick")
         res = run_case(case)
         stats.sample("det", (str(j), res["digest"] + ":" + ",".join(v["clause"] for v in res["violations"])), cap=10 ** 9)
+
+
+# --------------------------------------------------------------------------- #
+# cross-validation of the in-process kill model against real SIGKILLed child processes
+# --------------------------------------------------------------------------- #
+
+
+def crossvalidate_unit(unit: dict, stats: Stats):
+    """For sampled (scenario, op index): predict the directory after a kill in-process, then run the same scenario in a
+    real child process that SIGKILLs itself before the same operation, and compare the directories byte for byte."""
+    import subprocess
+    import json as _json
+
+    from .runner import VERIF
+
+    for j in range(unit["start"], unit["start"] + unit["count"]):
+        seed = derive_seed(unit["vseed"], PROP, "xval", j)
+        t = Tape(seed)
+        case = make_case(seed, t.choose(len(MATRIX) + 200, "xv.idx"), "quick")
+        case["knobs"]["wchunk"] = t.pick([16, 64, 4096], "xv.wc")
+        base = run_case(case)
+        ops = base["ops0"]
+        if not ops:
+            continue
+        k = ops[t.choose(len(ops), "xv.k")][0]
+        case_k = dict(case)
+        case_k["faults"] = [{"actor": 0, "at": k, "kind": "kill"}]
+        r = _simulate(case_k, case_k["faults"], None, Tape(values=[]), tag="xvp")
+        predicted = {kk: v[:3] for kk, v in r["after"].items()}
+        # the real thing
+        root = fsmodel.fresh_root("xvr")
+        child_case = dict(case)
+        child_case["faults"] = [{"actor": 0, "at": k, "kind": "realkill"}]
+        env = dict(os.environ)
+        env.pop("COVERAGE_PROCESS_START", None)
+        pp = [VERIF]
+        if os.environ.get("VERIF_REPO_SRC"):
+            pp.insert(0, os.environ["VERIF_REPO_SRC"])
+        env["PYTHONPATH"] = os.pathsep.join(pp)
+        p = subprocess.run([sys.executable, "-m", "sim.c16_child"], input=_json.dumps({"case": child_case, "root": root}),
+                           capture_output=True, text=True, env=env, cwd=VERIF, timeout=120)
+        stats.inc("xval_children")
+        if p.returncode != -9:
+            raise seam.HarnessError(f"cross-validation child did not die by SIGKILL (rc={p.returncode}): {p.stdout[-300:]} {p.stderr[-600:]}")
+        actual = {kk: v[:3] for kk, v in fsmodel.snapshot(root).items()}
+        d = fsmodel.diff(predicted, actual)
+        if d:
+            raise seam.HarnessError(f"kill model disagrees with a real SIGKILL at op {k} of scenario {case['idx']}: {d}")
+        stats.inc("xval_agree")
+        stats.group("xval_ops", dict(ops).get(k, "?"))
